@@ -46,7 +46,7 @@ func (rl *Shell) standardCommands() commands {
 		"next-screen-line":     rl.downLine,
 		"clear-screen":         rl.clearScreen,
 		"clear-display":        rl.clearDisplay,
-		"redraw-current-line":  rl.Display.Refresh,
+		"redraw-current-line":  rl.redrawCurrentLine,
 
 		// Changing text
 		"end-of-file":                  rl.endOfFile,
@@ -766,6 +766,13 @@ func (rl *Shell) quoteLine() {
 
 	rl.line.Insert(0, '\'')
 	rl.line.Insert(rl.line.Len(), '\'')
+}
+
+// Refresh the current line.
+// (The display is not created yet when commands are registered:
+// its method can't be given as the command itself.)
+func (rl *Shell) redrawCurrentLine() {
+	rl.Display.Refresh()
 }
 
 // Modifies the current word under the cursor, increasing it.
